@@ -2,7 +2,8 @@
 (* Property-layer trace specification of C07: consumes the controller-level   *)
 (* events of a run of real processes (start / end / kill of the guard,         *)
 (* verdicts printed by monitors, results printed by cleaners) in their real    *)
-(* order; system-call records are skipped.  Decides V1.                         *)
+(* order; of the system-call records only "a cleaner changed a token file"      *)
+(* is consumed (CleanerSys).  Decides V1.                                        *)
 EXTENDS ProcessProp, TraceIO
 
 VARIABLE l
@@ -15,6 +16,7 @@ Consume ==
     /\ l' = l + 1
     /\ LET e == Rec[l] IN
        CASE e.k = "reset" -> PReset
+         [] e.k = "sys" /\ e.p \in Cleaners -> CleanerSys(e.p, e.op, e.f, e.obs)
          [] e.k = "sys" -> UNCHANGED pvars
          [] e.k = "crash" /\ e.p = "G" -> GuardCrash
          [] e.k = "crash" /\ e.p \in Cleaners -> CleanerCrash(e.p)
@@ -22,7 +24,8 @@ Consume ==
          [] e.k = "ev" /\ e.p = "G" -> GuardEvent(e.ev)
          [] e.k = "ev" /\ e.ev = "qstart" -> QueryStart(e.p)
          [] e.k = "ev" /\ e.ev = "verdict" -> Verdict(e.p, e.lv, e.v, l)
-         [] e.k = "ev" /\ e.ev = "cstart" -> CleanerStart(e.p)
+         [] e.k = "ev" /\ e.ev = "cstart" -> CleanerStart(e.p, e.v = "fault")
+         [] e.k = "ev" /\ e.ev = "fault" -> UNCHANGED pvars      \* the injected failure itself (informational)
          [] e.k = "ev" /\ e.ev = "cresult" -> CleanerResult(e.p, e.v, e.left, e.lv, l)
          [] e.k = "ev" /\ e.ev \in {"cdrop_begin", "cdropped"} -> CleanerEvent(e.p, e.ev)
          [] OTHER -> FALSE
